@@ -77,3 +77,30 @@ Proof. intros L ops. exact (tree_spec ops). Qed.
 (* non-vacuity: bounds [1,2] in slot 0 and exactly 3 in slot 1 over two rows; a feasible and an infeasible flow *)
 Example C04_example : agg_ok [(1, 2); (3, 3)] 2 2 [1; 1; 1/2; 2] /\ ~ agg_ok [(1, 2); (3, 3)] 2 2 [1; 1; 1/2; 1].
 Proof. exact example_agg. Qed.
+
+(* ---- the `constraints` properties of DeviceSet, SubBalancedDeviceSet, MFDeviceSet and TwoRatioMFDeviceSet regenerated from the source
+        on every run (Gen/Constraints.v, translator/constraints_tx.py): children's lists re-wrapped onto their rows (functions AND optional
+        Jacobians), one aggregate constraint (low = high) or two per slot with each slot's OWN limits, label balancing, the wrapped
+        device's constraints on the column sum, the ratio per slot - ARE the exported list of the tree model (gcons), node by node. Any carrier,
+        any leaf behaviours. ---- *)
+From DK.Model Require Import ConOps.
+From DK.Gen Require Import Constraints.
+From DK.Proofs Require Import GenConstraints.
+Theorem C04_source_set_constraints : forall {A} `{Num A} {L} (ops : leafops A L) i ks sb, let d := DSet i ks sb in
+  DeviceSet_constraints (map (ckid_of ops) ks) (partition ops d) (rows ops d, dlen ops d) sb = gcons ops d.
+Proof. intros A H L ops i ks sb. apply gen_set_node_constraints. Qed.
+Theorem C04_source_subbalanced_constraints : forall {A} `{Num A} {L} (ops : leafops A L) i ks sb lb e sg rm, let d := SubBal i ks sb lb e sg rm in
+  SubBalancedDeviceSet_constraints (DeviceSet_constraints (map (ckid_of ops) ks) (partition ops d) (rows ops d, dlen ops d) sb)
+    (rows ops d, dlen ops d) (balance_sets (dedup (labels ops d)) lb rm) e sg = gcons ops d.
+Proof. intros A H L ops i ks sb lb e sg rm. apply gen_subbalanced_node_constraints. Qed.
+Theorem C04_source_adaptor_constraints : forall {A} `{Num A} {L} (ops : leafops A L) i l flows,
+  let d := MF i l flows in let k := List.length flows in let n := l_n ops l in
+  MFDeviceSet_constraints (DeviceSet_constraints (repeat null_ckid k) (map (fun j => (j, 1%nat)) (seq 0 k)) (k, n) (Some (l_bounds ops l)))
+    (l_cons ops l) (k, n) = gcons ops d.
+Proof. intros A H L ops i l flows. apply gen_mf_node_constraints. Qed.
+Theorem C04_source_two_ratio_constraints : forall {A} `{Num A} {L} (ops : leafops A L) i l flows ratios is_eq,
+  let d := TwoRatio i l flows ratios is_eq in let k := List.length flows in let n := l_n ops l in
+  TwoRatioMFDeviceSet_constraints
+    (MFDeviceSet_constraints (DeviceSet_constraints (repeat null_ckid k) (map (fun j => (j, 1%nat)) (seq 0 k)) (k, n) (Some (l_bounds ops l))) (l_cons ops l) (k, n))
+    (k, n) ratios is_eq = gcons ops d.
+Proof. intros A H L ops i l flows ratios is_eq. apply gen_tworatio_node_constraints. Qed.
